@@ -2248,8 +2248,9 @@ impl<'a> UserModel<'a> {
             old_value: self.get_timezone(),
             new_value: timezone.to_string(),
         }];
+        self.model.set_timezone(timezone)?;
         self.push_diff_list(diff_list);
-        self.model.set_timezone(timezone)
+        Ok(())
     }
 
     /// Sets the locale for the model
